@@ -10,6 +10,16 @@ Import ListNotations.
 Open Scope N_scope.
 Arguments gkey : simpl never.
 
+(* The fact of the code (translated on every run: gen/GenClaims.v register_pre_delete) on which
+   every theorem of this file rests: register_nglob deletes no existing row. A register_nglob that
+   deletes rows is translated into a non-empty column list, model/Claims.v follows it, and this
+   lemma (with everything below) stops compiling. *)
+Lemma register_supersedes_nothing : register_pre_delete = [].
+Proof. reflexivity. Qed.
+
+Lemma pre_delete_none s pat key gs : pre_delete register_pre_delete s pat key gs = gs.
+Proof. reflexivity. Qed.
+
 Section Registrations.
 
 Variable gm : str -> str -> bool.
